@@ -11,7 +11,7 @@ THEOREMS = [
     "encodeLoop_is_chunks", "roundtrip_update", "roundtrip_open", "roundtrip_small", "roundtrip_keepalive",
     "roundtrip_refresh", "roundtrip_notification", "as4_roundtrip", "decode_encode_fixed_point",
     "decode_encode_fixed_point_frame", "as4_roundtrip_full_false", "check_run_full_false", "witness_nexthop",
-    "witness_confed_tail", "dom_examples_multiframe", "two_octet_peer_example", "repaired_dropped", "repaired_refused", "repaired_open", "repaired_partial", "repaired_confed",
+    "witness_confed_tail", "dom_examples_multiframe", "two_octet_peer_example", "flowspec_len_roundtrip", "flowspec_nlri_framed", "flowspec_len_4096", "repaired_dropped", "repaired_refused", "repaired_open", "repaired_partial", "repaired_confed",
     "repaired_notification",
 ]
 
@@ -33,6 +33,11 @@ HYPOTHESIS_BACKED = ["NLRI encoders/decoders of VPNv4/v6, labeled-unicast v4/v6,
                      "SR-policy v4/v6, RTC: wire bytes and per-entry decode verdict are measured on the real code (probe) and "
                      "passed in the case; framing/chunking around them is the modelled code; judged by the structural oracle "
                      "(frame bound, length consistency, byte-level partition, decode-back equality by the REAL decoder). "
+                     "Flow Specification: the NLRI length field (flowspec.rs write_nlri_len / read_nlri_len, Nlri::put_flowspec) IS "
+                     "modelled (flowNlriLen / readFlowNlriLen / putFlowspec) with theorems about its two forms "
+                     "(flowspec_len_roundtrip, flowspec_nlri_framed); the oracle checks on every flowspec entry that the real wire "
+                     "bytes are a well-framed length + rule in the form RFC 8955 4.1 prescribes; rule bodies of exactly 238..242, "
+                     "254..257, 4094, 4095 and 4096 octets are generated every run (the rule's components stay impl-only). "
                      "Whether such an NLRI is encodable at all is decided from the INPUT (Codec.hasWireForm: label-stack bits "
                      "<= 255), not by the probe: a refused valid NLRI is the failure `valid-entry-refused`; corpus "
                      "seed-families-embedded-probes.case pins the wire bytes of every family",
@@ -129,10 +134,10 @@ OPAQUE = {
     (2, 73): [(0, 1), (1, 1)],
     (1, 85): [(0, 2), (1, 2), (2, 2), (3, 2), (4, 2)],
     (2, 85): [(0, 2), (1, 2), (2, 2), (3, 2), (4, 2)],
-    (1, 133): [(0, 4), (1, 4), (2, 2), (3, 1)],
-    (2, 133): [(0, 4), (1, 4), (2, 2), (3, 1)],
-    (1, 134): [(0, 4), (1, 4), (2, 2), (3, 1)],
-    (2, 134): [(0, 4), (1, 4), (2, 2), (3, 1)],
+    (1, 133): [(0, 4), (1, 4), (2, 2), (3, 1), (4, 5), (5, 1)],     # 4: exact body length (see FLOW_BODY_TARGETS), 5: operator widths
+    (2, 133): [(0, 4), (1, 4), (2, 2), (3, 1), (4, 5), (5, 1)],     # 4: exact body length (see FLOW_BODY_TARGETS), 5: operator widths
+    (1, 134): [(0, 4), (1, 4), (2, 2), (3, 1), (4, 5), (5, 1)],     # 4: exact body length (see FLOW_BODY_TARGETS), 5: operator widths
+    (2, 134): [(0, 4), (1, 4), (2, 2), (3, 1), (4, 5), (5, 1)],     # 4: exact body length (see FLOW_BODY_TARGETS), 5: operator widths
     (25, 70): [(1, 2), (2, 3), (12, 2), (22, 2), (3, 2), (13, 1), (4, 1), (14, 1), (5, 2), (15, 2)],
     (16388, 71): [(0, 2), (1, 2), (2, 2), (3, 2), (4, 2)],
 }
@@ -154,7 +159,31 @@ def has_wire_form(fam, reach, kind, seed):
         return 24 * kind + 64 + seed % (mx + 1) <= 255
     if fam[0] in (1, 2) and fam[1] == 4:
         return (24 * kind + seed % (mx + 1) <= 255) if reach else True
+    if fam[0] in (1, 2) and fam[1] in (133, 134) and kind == 4:
+        return FLOW_BODY_TARGETS[seed % 12] <= 4095      # the flowspec NLRI length field has 12 bits
     return True
+
+
+# c04_fam.rs FLOW_BODY_TARGETS: flowspec kind 4 builds a rule body of exactly this many octets (seed % 12): around the
+# one-octet / two-octet length forms (240), around 255/256, and around the 12-bit limit
+FLOW_BODY_TARGETS = [238, 239, 240, 241, 242, 254, 255, 256, 257, 4094, 4095, 4096]
+
+# strings for the FQDN capability: ASCII with upper case, multi-byte UTF-8, letters whose case mapping changes the UTF-8
+# length (U+0130 -> "i" + U+0307, U+212A KELVIN SIGN -> "k", U+1E9E -> U+00DF), other non-ASCII upper-case letters
+NAME_PIECES = ["R", "r", "Z", "a", "-", "0", ".", "\u0130", "\u212a", "\u1e9e", "\u00c9", "\u00e9", "\u00df", "\u03a9",
+               "\u0416", "\u01c5", "\u4e2d", "\U0001f600", "\U00010400"]
+
+
+def gen_name(r, nbytes):
+    """a well-formed UTF-8 string of exactly `nbytes` octets (as a list of octets)"""
+    out = b""
+    while len(out) < nbytes:
+        p = r.pick(NAME_PIECES if r.chance(1, 2) else NAME_PIECES[:7]).encode("utf-8")
+        if len(out) + len(p) <= nbytes:
+            out += p
+        else:
+            out += b"x" * (nbytes - len(out))
+    return list(out)
 
 
 def hexs(bs):
@@ -223,7 +252,10 @@ def gen_caps(r, fams, must, want_as4, want_em, ap_mode, enh, noise=True):
     if noise and r.chance(1, 10):
         caps.append("(llgr%s)" % "".join(" (%d %d %d %d)" % (f[0], f[1], r.pick([0, 128]), r.below(1 << 24)) for f in fams[:3]))
     if noise and r.chance(1, 8):
-        caps.append("(fqdn %s %s)" % (hexs(b"Router-" + bytes([65 + r.below(26)])), hexs(b"Example.NET"[: r.below(12)])))
+        if r.chance(1, 2):
+            caps.append("(fqdn %s %s)" % (hexs(b"Router-" + bytes([65 + r.below(26)])), hexs(b"Example.NET"[: r.below(12)])))
+        else:
+            caps.append("(fqdn %s %s)" % (hexs(gen_name(r, r.below(20))), hexs(gen_name(r, r.below(12)))))
     if noise and r.chance(1, 10):
         caps.append("err")
     if noise and r.chance(1, 12):
@@ -539,7 +571,15 @@ def gen_open(r):
     if r.chance(1, 3):
         hl = r.pick([0, 1, 8, 64]) if style != "edge" else r.pick([120, 126, 127, 200] if odd else [100, 120, 126, 127])
         dl = r.pick([0, 11]) if style != "edge" else r.pick([120, 126, 127, 128] if odd else [100, 120, 126, 127])
-        caps.append("(fqdn %s %s)" % (hexs([r.pick([65, 97, 45, 48, 90]) for _ in range(hl)]), hexs([r.pick([66, 98, 46]) for _ in range(dl)])))
+        if style == "edge" and r.chance(1, 2):
+            # value length 2 + h + d at the one-octet boundary / the largest block that fits an OPEN (251) / beyond
+            tot = r.pick([249, 250, 251, 252, 253, 254] + ([255, 256, 300] if odd else []))
+            hl = r.pick([0, 1, tot // 2, tot - 2 - 1, tot - 2])
+            dl = tot - 2 - hl
+        if r.chance(1, 3):
+            caps.append("(fqdn %s %s)" % (hexs([r.pick([65, 97, 45, 48, 90]) for _ in range(hl)]), hexs([r.pick([66, 98, 46]) for _ in range(dl)])))
+        else:
+            caps.append("(fqdn %s %s)" % (hexs(gen_name(r, hl)), hexs(gen_name(r, dl))))
     if r.chance(1, 4):
         n = r.below(6) if style != "edge" else r.pick([200, 254, 255])
         caps.append("(unk %d %s)" % (r.pick([3, 66, 128]), hexs([r.below(256) for _ in range(n)])))
